@@ -19,7 +19,7 @@ import (
 // values of the unknown bytes; that is allowed (nothing to distinguish then).
 func verifTwoRoots() (string, string) {
 	sym := verifRoot(1)
-	conc := verifConcreteRoots[verif.Choice("other_root", verif.Bound("other_roots", 4, len(verifConcreteRoots)))]
+	conc := verifConcreteRoots[verif.Choice("other_root", verif.Bound("other_roots", 3, len(verifConcreteRoots)))]
 	if verif.Choice("symbolic_root_first", 2) == 1 {
 		return sym, conc
 	}
@@ -41,10 +41,13 @@ func verifTwoPathers(id string, name1, name2 string) {
 	verif.Assert("new-first-ok", err == nil)
 	p2, err := New(r2, id)
 	verif.Assert("new-second-ok", err == nil)
-	// first pather converts, then the second one, then the first one again.
+	// first pather converts, then the second one, then (thorough tier) the
+	// first one again.
 	verifRoundTrip("first", p1, name1)
 	verifRoundTrip("second", p2, name2)
-	verifRoundTrip("first-again", p1, name2)
+	if verif.Bound("convert_first_again", 0, 1) == 1 {
+		verifRoundTrip("first-again", p1, name2)
+	}
 }
 
 // VerifDockerTagTwoRoots: two DockerTagPathers with different roots alive in
